@@ -894,7 +894,7 @@ var repeats = 1
 // probed once and passed to the model and to the reference.
 var keepLiveDigests bool
 
-func probeKeepLiveDigests() bool {
+func probeKeepLiveDigests() (keeps bool, definite bool) {
 	root, err := os.MkdirTemp("", "c09p-")
 	if err != nil {
 		panic(err)
@@ -931,10 +931,10 @@ func probeKeepLiveDigests() bool {
 	}
 	w := &world{root: root, store: store}
 	if err, hung := w.guarded(func(c context.Context) error { return store.GC(c) }); err != nil || hung {
-		return false
+		return false, !hung // a probe that exceeded the watchdog says nothing
 	}
 	d, err := store.Resolve(ctx, md.Digest.String())
-	return err == nil && d.MediaType == ocispec.MediaTypeImageManifest
+	return err == nil && d.MediaType == ocispec.MediaTypeImageManifest, true
 }
 
 // execOnly runs the history on a fresh store and returns the observable string only.
@@ -1475,12 +1475,14 @@ func coverageFloors(n int) {
 func main() {
 	run = common.Start("C09")
 	run.Rule = "distinct (graph, history) pairs in which a Delete cascaded beyond its target or a GC removed at least one blob"
-	// (a stalled probe must not flip the answer: two equal answers in a row)
-	for a, b := probeKeepLiveDigests(), probeKeepLiveDigests(); ; a, b = b, probeKeepLiveDigests() {
-		if a == b {
-			keepLiveDigests = a
-			break
-		}
+	// (a stalled probe says nothing: ask again; give up - as a harness failure - after 5 stalls)
+	answered := false
+	for i := 0; i < 5 && !answered; i++ {
+		keepLiveDigests, answered = probeKeepLiveDigests()
+	}
+	if !answered {
+		fmt.Fprintln(os.Stderr, "C09 harness: the start-up probe (GC on a 3-node store) exceeded the watchdog 5 times")
+		os.Exit(4)
 	}
 	run.Extra["gc_keeps_live_digest_refs"] = keepLiveDigests
 	if run.Replay != "" {
